@@ -29,6 +29,17 @@ Theorem C14_valid_size_all_present : forall sp,
   (forall r d, In (Some r, d) sp -> r <= d) -> valid_size sp = recorded_size sp.
 Proof. exact valid_size_all_present. Qed.
 Print Assumptions C14_valid_size_all_present.
+(* valid_blocks rounds DOWN: a level is short as soon as its valid size is below used * block size by any number of bytes *)
+Theorem C14_valid_blocks_is_floor : forall bs sp, 0 < bs ->
+  valid_blocks bs sp * bs <= valid_size sp /\ valid_size sp < (valid_blocks bs sp + 1) * bs.
+Proof. exact valid_blocks_floor. Qed.
+Print Assumptions C14_valid_blocks_is_floor.
+Theorem C14_short_iff_bytes_missing : forall bs sp used, 0 < bs -> (valid_blocks bs sp < used <-> valid_size sp < used * bs).
+Proof. exact valid_blocks_lt_iff. Qed.
+Print Assumptions C14_short_iff_bytes_missing.
+Theorem C14_truncated_file_is_short : forall bs used d, 0 < bs -> d < used * bs -> valid_blocks bs [(Some (used * bs), d)] < used.
+Proof. exact truncated_file_is_short. Qed.
+Print Assumptions C14_truncated_file_is_short.
 Example C14_example_valid_size :
   valid_blocks 1024 [(Some 9216, 2048)] = 2 /\ recorded_size [(Some 9216, 2048)] / 1024 = 9
   /\ valid_blocks 1024 [(Some 4096, 4096); (Some 5120, 1024); (Some 2048, 2048)] = 5
